@@ -149,11 +149,10 @@ Step(s) ==
                         ELSE [s EXCEPT !.p = r.p, !.cache = CachePut(@, <<s.exp, r.t.id>>, r.t),
                                        !.ins = Append(@, r.t)]
               ELSE IF s.sid < 2 THEN [s EXCEPT !.pc = "reject"]                     \* set id 0 / 1
+              ELSE IF GuardZeroRec /\ MinRecLen(s.tpl) = 0
+              THEN [s EXCEPT !.pc = "skip", !.nonfatal = @ + 1]                     \* records of no octets
               ELSE LET r == RdRec(s.buf, s.p, AllFields(s.tpl), <<>>) IN
-                   CASE r.st = "ok" ->
-                          IF GuardZeroRec /\ r.p = s.p
-                          THEN [s EXCEPT !.pc = "skip", !.nonfatal = @ + 1]        \* a record of no octets
-                          ELSE [s EXCEPT !.p = r.p, !.out = Append(@, r.r)]
+                   CASE r.st = "ok" -> [s EXCEPT !.p = r.p, !.out = Append(@, r.r)]
                      [] r.st = "nomodel" -> [s EXCEPT !.pc = "skip", !.nonfatal = @ + 1]
                      [] OTHER -> [s EXCEPT !.pc = "reject"]                         \* short read, empty template
     [] s.pc = "skip" ->
@@ -162,12 +161,16 @@ Step(s) ==
          ELSE [s EXCEPT !.p = s.p + left, !.pc = "sets"]
     [] OTHER -> s
 
-Final(s) == s.pc \in {"done", "reject", "hang"}
 (* fuel bounds the number of steps: running out of it is the model's "hang" *)
+Final(s) == s.pc \in {"done", "reject", "hang", "badstep"}
+Progress(s, t) == (s.pc = "records" /\ t.pc = "records") => t.p > s.p
+Monotone(s, t) == t.p >= s.p /\ t.p <= Len(s.buf) /\ Len(t.out) >= Len(s.out)
 RECURSIVE RunN(_, _)
 RunN(s, fuel) == IF Final(s) THEN s
                  ELSE IF fuel = 0 THEN [s EXCEPT !.pc = "hang"]
-                 ELSE RunN(Step(s), fuel - 1)
+                 ELSE LET t == Step(s) IN
+                      IF Progress(s, t) /\ Monotone(s, t) THEN RunN(t, fuel - 1)
+                      ELSE [s EXCEPT !.pc = "badstep"]
 S0(buf, exp, cache) == [buf |-> buf, p |-> 0, pc |-> "hdr", exp |-> exp, cache |-> cache,
                         sid |-> 0, slen |-> 0, sstart |-> 0, tpl |-> NoTpl, out |-> <<>>,
                         nonfatal |-> 0, hdr |-> <<>>, ins |-> <<>>]
@@ -182,8 +185,9 @@ Result(d) == [st |-> IF d.pc = "done" THEN (IF d.nonfatal > 0 THEN "nonfatal" EL
               recs |-> IF d.pc = "done" THEN d.out ELSE <<>>]
 
 (* ------------------------------------------------------------------ *)
-(* step-level properties (C01 / C02): used as action properties by IPFIXStep *)
-Progress(s, t) == (s.pc = "records" /\ t.pc = "records") => t.p > s.p
-Monotone(s, t) == t.p >= s.p /\ t.p <= Len(s.buf) /\ Len(t.out) >= Len(s.out)
+(* C01 / C02 at the model level: every step is checked by RunN itself (a step that *)
+(* neither consumes an octet nor leaves the record loop, or that moves backwards,  *)
+(* ends the run in "badstep"; running out of fuel is "hang")                       *)
 OutBounded(s) == Len(s.out) <= Len(s.buf)
+Total(s) == s.pc \in {"done", "reject"}
 ==========================================================================
